@@ -188,8 +188,42 @@ func (E *Engine) prepare(hyps []*Term, goal *Term) ([]*Term, *Term) {
 
 func (E *Engine) prepare2(hyps []*Term, goal *Term, hints map[string][]*Term) (groundOut, quantOut []*Term, goalOut *Term) {
 	hyps = flattenAnd(hyps)
+	var origGoal *Term
 	if goal != nil {
 		goal = E.skolemize(goal)
+		origGoal = goal
+		// a goal "A ==> exists j. P(j)" is refuted from A and "forall j. !P(j)":
+		// the universal is then instantiated like any other hypothesis
+		for changed := true; changed; {
+			changed = false
+			switch {
+			case goal.Op == "exists":
+				hyps = append(hyps, Forall(goal.Bound, Not(goal.Args[0])))
+				goal = FalseT
+				changed = true
+			case goal.Op == "=>":
+				hyps = append(hyps, flattenAnd([]*Term{goal.Args[0]})...)
+				goal = goal.Args[1]
+				changed = true
+			case goal.Op == "or":
+				// A || exists ... : assume the negation of the other disjuncts
+				idx := -1
+				for i, a := range goal.Args {
+					if a.Op == "exists" {
+						idx = i
+					}
+				}
+				if idx >= 0 {
+					for i, a := range goal.Args {
+						if i != idx {
+							hyps = append(hyps, Not(a))
+						}
+					}
+					goal = goal.Args[idx]
+					changed = true
+				}
+			}
+		}
 	}
 	var ground, quant []*Term
 	for _, h := range hyps {
@@ -222,8 +256,8 @@ func (E *Engine) prepare2(hyps []*Term, goal *Term, hints map[string][]*Term) (g
 	seen := map[string]bool{}
 	cands := map[string]*Term{}
 	b := map[string]int{}
-	if goal != nil {
-		indexTerms(goal, cands, b)
+	if origGoal != nil {
+		indexTerms(origGoal, cands, b)
 	}
 	if len(cands) < 4 {
 		// arithmetic-only goal: take the smallest index terms of the ground hypotheses
@@ -238,8 +272,8 @@ func (E *Engine) prepare2(hyps []*Term, goal *Term, hints map[string][]*Term) (g
 	}
 	known := map[string]bool{}
 	skolems := map[string]*Term{}
-	if goal != nil {
-		collectSkolems(goal, skolems)
+	if origGoal != nil {
+		collectSkolems(origGoal, skolems)
 	}
 	for round := 0; round < 2; round++ {
 		keys := sortedBySize(cands)
@@ -641,6 +675,35 @@ func (E *Engine) Discharge(par int) {
 		}(j)
 	}
 	wg.Wait()
+	// second chance under less contention: queries that ran out of time are
+	// retried a few at a time with a three times longer limit (a loaded machine
+	// must not turn a proof into an alarm)
+	var retry []job
+	for _, j := range jobs {
+		if j.o.Kind != "cover" && (j.q.Result == "timeout" || j.q.Result == "unknown") && j.q.Script != "" && len(j.q.Script) <= maxScript {
+			retry = append(retry, j)
+		}
+	}
+	if len(retry) > 0 && len(retry) <= 24 {
+		sem2 := make(chan struct{}, 3)
+		for _, j := range retry {
+			wg.Add(1)
+			sem2 <- struct{}{}
+			go func(j job) {
+				defer wg.Done()
+				defer func() { <-sem2 }()
+				r, sv, out, secs := race(j.q.Script, "", E.timeoutS*3)
+				if r == "unsat" || r == "sat" {
+					j.q.Result, j.q.Solver, j.q.Output = r, sv+" (retry)", out
+					j.q.Seconds += secs
+					if r == "unsat" {
+						j.q.Output = ""
+					}
+				}
+			}(j)
+		}
+		wg.Wait()
+	}
 }
 
 func dumpScript(dir, name, script string) string {
